@@ -990,6 +990,16 @@ class BlockwiseRequest(BaseUnicastRequest, interfaces.Request):
             app_request.remote = blockresponse.remote
 
             if blockresponse.opt.block1 is None:
+                if blockresponse.code == CONTINUE or (
+                    blockresponse.code.is_successful()
+                    and current_block1.opt.block1
+                    and current_block1.opt.block1.more
+                ):
+                    # Taking this for the final result would pass off a
+                    # partial upload (or a request to continue) as success
+                    raise error.UnexpectedBlock1Option(
+                        "Block acknowledged without a Block1 option"
+                    )
                 if blockresponse.code.is_successful() and current_block1.opt.block1:
                     log.warning(
                         "Block1 option completely ignored by server, assuming it knows what it is doing."
